@@ -176,3 +176,55 @@ func emptyMaps(r protoreflect.Message) {
 		}
 	}
 }
+
+// FullDeep is Full with n entries in the lists and maps of the nested messages as well (to the given nesting depth):
+// an external reference with several hashes, a person with several contacts who have several contacts. Code that
+// orders, joins or indexes a nested collection behaves differently from two entries on.
+func FullDeep(m proto.Message, tag string, n, depth int) {
+	Full(m, tag, n)
+	widen(m.ProtoReflect(), tag, n, depth)
+}
+
+func widen(r protoreflect.Message, tag string, n, depth int) {
+	if depth <= 0 || r.Descriptor().FullName() == "google.protobuf.Timestamp" {
+		return
+	}
+	fds := r.Descriptor().Fields()
+	for i := 0; i < fds.Len(); i++ {
+		fd := fds.Get(i)
+		visit := func(nm protoreflect.Message) {
+			nf := nm.Descriptor().Fields()
+			for j := 0; j < nf.Len(); j++ {
+				nfd := nf.Get(j)
+				if !nfd.IsList() && !nfd.IsMap() {
+					continue
+				}
+				have := 0
+				if nfd.IsList() {
+					have = nm.Get(nfd).List().Len()
+				} else {
+					have = nm.Get(nfd).Map().Len()
+				}
+				for k := have + 1; k <= n; k++ {
+					SetFieldDepth(nm, nfd, k, tag, depth-1)
+				}
+			}
+			widen(nm, tag, n, depth-1)
+		}
+		switch {
+		case fd.IsMap():
+			if fd.MapValue().Kind() == protoreflect.MessageKind {
+				r.Get(fd).Map().Range(func(_ protoreflect.MapKey, v protoreflect.Value) bool { visit(v.Message()); return true })
+			}
+		case fd.IsList():
+			if fd.Kind() == protoreflect.MessageKind {
+				l := r.Get(fd).List()
+				for j := 0; j < l.Len(); j++ {
+					visit(l.Get(j).Message())
+				}
+			}
+		case fd.Kind() == protoreflect.MessageKind && r.Has(fd):
+			visit(r.Get(fd).Message())
+		}
+	}
+}
